@@ -1,6 +1,8 @@
 import TwistedProps.C49.Inv
 import TwistedProps.C49.Log
 import TwistedProps.C49.Quit
+import TwistedProps.C49.Quiesce
+import TwistedProps.C49.Backlog
 /-!
 C49 — thread pools run every task exactly once within their worker limit.
 
@@ -25,13 +27,27 @@ Proved here (all histories):
 * `coordinator_stops_only_when_drained`  the coordinator is quit only after `quit()`, with nothing busy/queued;
 * `quit_is_permanent`, `submission_after_quit_refused`, `call_after_stop_dropped`.
 
-PARTIAL — not proved in Lean (checked on the implementation by the oracle of harness/corr/C49.py on every run):
-* "runs exactly once": the conservation law  #run t + #in-flight t = #accepted t  and its corollary at a quiescent
-  state (ran once, or still pending with no live worker);
-* "after quit every worker is stopped once outstanding tasks finish": quiescent ∧ quit → coordinator quit ∧ all
-  workers quit.
-`silent_limit_raise_starves` records why the first needs "limit changes go through ThreadPool": a raw change of the
-limit function is never noticed by `Team`.
+* `task_conservation`                    for every task id: #calls + #in flight (backlog + worker queues + coordinator
+                                         queue) = #accepted — no task is lost or duplicated; corollaries
+                                         `task_runs_at_most_as_often_as_accepted` (never twice), `task_submitted_once_is_in_one_place`;
+* `quiescent_ran_or_backlogged`          when no queue has work, every accepted task has run or is still in `_pending`;
+* `quiescent_backlog_means_no_live_worker`  when no queue has work: backlog empty, or idle set empty ∧ nothing busy ∧ every
+                                         worker ever created is quit; hence `every_task_ran_exactly_once` (a live worker left);
+* `quit_stops_coordinator_and_every_worker`  quit requested ∧ no queue has work ⇒ coordinator quit ∧ every worker quit;
+* `backlog_only_while_creator_refuses`, `quiescent_backlog_means_no_worker_possible`,
+  `every_task_runs_exactly_once_unless_no_worker_possible`
+                                         for histories whose limit changes go through `ThreadPool` (`ReachableViaPool`: no raw
+                                         `Op.limit`): before quit a backlog exists only while `limitedWorkerCreator` refuses (or
+                                         the `grow` kick of `adjustPoolsize` is still queued), so a quiescent pre-quit state with
+                                         a backlog has limit ≤ 0; with limit > 0 every task ran exactly as often as accepted.
+
+Scope notes (not gaps in the proofs, limits of what the statement can mean):
+* `silent_limit_raise_starves`: a raw change of the limit function is never noticed by `Team`, so the "unless no worker
+  could be created" clause is stated for limit changes that go through `ThreadPool`;
+* `start_after_stop_leaves_backlog`: after `quit()` the clause "the creator refuses" can fail (a `start()` after `stop()`
+  raises the limit while its `grow` raises `AlreadyQuit`); after quit the theorems give: nothing lost, nothing twice,
+  backlog ⇒ no live worker, all workers and the coordinator quit;
+* real threads (`LockWorker`/`ThreadWorker`, `stop()` joining) are outside the model (see ASSUMES in harness/corr/C49.py).
 -/
 namespace TwistedProps.C49
 open Twisted.Threads Twisted.Threads.St
@@ -114,6 +130,164 @@ theorem call_after_stop_dropped (s : St) (t : Nat) (r : Bool) (hc : s.crashed = 
     (step s (.pCall t r)).coordQ = s.coordQ ∧ (step s (.pCall t r)).log = s.log ++ [.dropped t] := by
   simp [step, hc, applyOp, St.poolCall, hj, St.emit]
 
+
+/-! ### Every task runs exactly once; quit terminates -/
+
+theorem reachable_inv2 {s : St} (h : Reachable s) : Inv2 s := by
+  obtain ⟨s0, ops, h0, rfl⟩ := h
+  rcases h0 with ⟨l, ch, rfl⟩ | ⟨mn, mx, ch, rfl⟩
+  · exact inv2_run (inv2_init l ch) ops
+  · exact inv2_run (inv2_initPool mn mx ch) ops
+
+/-- Conservation of tasks, for every history and schedule and every task id `x`:
+    `#calls of x + #copies of x still in flight = #times Team.do accepted x`,
+    where "in flight" = `Team._pending` + the worker queues + the `_coordinateThisTask` items of the coordinator queue.
+    No task is lost and none is duplicated. -/
+theorem task_conservation {s : St} (h : Reachable s) (x : Nat) : runs x s + inflight x s = accepts x s := by
+  have hn : NC s := no_queue_item_raises h
+  obtain ⟨s0, ops, h0, rfl⟩ := h
+  refine cons_run ops hn ?_ x
+  rcases h0 with ⟨l, ch, rfl⟩ | ⟨mn, mx, ch, rfl⟩ <;> exact cons_fresh _ rfl rfl rfl rfl
+
+/-- No task runs more often than it was accepted — in particular a task submitted once never runs twice. -/
+theorem task_runs_at_most_as_often_as_accepted {s : St} (h : Reachable s) (x : Nat) : runs x s ≤ accepts x s := by
+  have := task_conservation h x; omega
+
+/-- A task submitted once has, at every moment, either been called exactly once and is nowhere in flight, or has
+    not been called and sits in exactly one place (backlog, one worker queue, or the coordinator queue). -/
+theorem task_submitted_once_is_in_one_place {s : St} (h : Reachable s) (x : Nat) (ha : accepts x s = 1) :
+    (runs x s = 1 ∧ inflight x s = 0) ∨ (runs x s = 0 ∧ inflight x s = 1) := by
+  have := task_conservation h x; omega
+
+/-- At a quiescent state (no queue has work) every accepted task has run exactly as often as it was accepted,
+    except for the copies still in `Team._pending`. -/
+theorem quiescent_ran_or_backlogged {s : St} (h : Reachable s) (he : s.enabled = []) (x : Nat) :
+    runs x s + s.pending.countP (isT x) = accepts x s := by
+  have hc := task_conservation h x
+  obtain ⟨hq, hw⟩ := (enabled_nil_iff s).mp he
+  simp only [inflight, wsum_zero_of_empty x s.workers hw, hq] at hc
+  simpa using hc
+
+/-- Quiescence: if no queue has work, then either the backlog is empty, or there is no live worker at all (the idle
+    set is empty, nothing is busy, every worker ever created has been quit) — a backlog never coexists with a
+    worker that could take it. -/
+theorem quiescent_backlog_means_no_live_worker {s : St} (h : Reachable s) (he : s.enabled = []) :
+    s.pending = [] ∨
+    (s.idle = [] ∧ s.busy = 0 ∧ ∀ (w : Nat) (wk : Worker), s.workers[w]? = some wk → wk.quit = true) := by
+  have hi := reachable_inv2 h
+  cases hp : s.pending with
+  | nil => exact Or.inl rfl
+  | cons t rest =>
+    right
+    have hidle := hi.num.pendIdle (by rw [hp]; simp)
+    refine ⟨hidle, quiescent_busy_zero hi he, ?_⟩
+    intro w wk hw
+    cases hq : wk.quit with
+    | true => rfl
+    | false =>
+      have := quiescent_live_idle hi he w wk hw hq
+      rw [hidle] at this; simp at this
+
+/-- "Every task submitted runs exactly once (unless no worker could be had)": at a quiescent state in which some
+    worker is still alive, every task has been called exactly as often as `Team.do` accepted it. -/
+theorem every_task_ran_exactly_once {s : St} (h : Reachable s) (he : s.enabled = [])
+    (hlive : ∃ (w : Nat) (wk : Worker), s.workers[w]? = some wk ∧ wk.quit = false) (x : Nat) :
+    runs x s = accepts x s := by
+  have := quiescent_ran_or_backlogged h he x
+  rcases quiescent_backlog_means_no_live_worker h he with hp | ⟨_, _, hall⟩
+  · rw [hp] at this; simpa using this
+  · obtain ⟨w, wk, hw, hq⟩ := hlive
+    rw [hall w wk hw] at hq; cases hq
+
+/-- Quit terminates: once `quit()` has been called and no queue has work left, the coordinator has been quit and so
+    has every worker ever created. -/
+theorem quit_stops_coordinator_and_every_worker {s : St} (h : Reachable s) (he : s.enabled = [])
+    (hq : s.quit = true) :
+    s.coordQuit = true ∧ ∀ (w : Nat) (wk : Worker), s.workers[w]? = some wk → wk.quit = true := by
+  have hi := reachable_inv2 h
+  obtain ⟨hcq, _⟩ := (enabled_nil_iff s).mp he
+  have hsq : s.shouldQuit = true := by
+    rcases hi.finPending hq with a | a
+    · exact a
+    · rw [hcq] at a; simp at a
+  obtain ⟨hidle, hc⟩ := hi.num.sqIdle hsq
+  have hb := quiescent_busy_zero hi he
+  refine ⟨?_, ?_⟩
+  · rcases hc with hc | hc
+    · exact hc
+    · omega
+  · intro w wk hw
+    cases hwq : wk.quit with
+    | true => rfl
+    | false =>
+      have := quiescent_live_idle hi he w wk hw hwq
+      rw [hidle] at this; simp at this
+
+
+/-! ### "unless no worker could ever be created" -/
+
+/-- states reachable by histories in which the limit function changes only through `ThreadPool`
+    (`start/stop/adjustPoolsize`), never behind `Team`'s back (no raw `Op.limit`); a `ThreadPool` is created with
+    `0 ≤ minthreads ≤ maxthreads` (its constructor asserts this) -/
+def ReachableViaPool (s : St) : Prop :=
+  ∃ (s0 : St) (ops : List Op),
+    ((∃ l ch, s0 = init l ch) ∨ (∃ mn mx ch, 0 ≤ mn ∧ mn ≤ mx ∧ s0 = initPool mn mx ch)) ∧
+    (∀ o ∈ ops, ∀ l, o ≠ Op.limit l) ∧ s = run s0 ops
+
+theorem ReachableViaPool.reachable {s : St} (h : ReachableViaPool s) : Reachable s := by
+  obtain ⟨s0, ops, h0, _, rfl⟩ := h
+  refine ⟨s0, ops, ?_, rfl⟩
+  rcases h0 with h0 | ⟨mn, mx, ch, _, _, h0⟩
+  · exact Or.inl h0
+  · exact Or.inr ⟨mn, mx, ch, h0⟩
+
+theorem reachableViaPool_inv3 {s : St} (h : ReachableViaPool s) : Inv3 s := by
+  obtain ⟨s0, ops, h0, hno, rfl⟩ := h
+  rcases h0 with ⟨l, ch, rfl⟩ | ⟨mn, mx, ch, h1, h2, rfl⟩
+  · exact inv3_run (inv3_init l ch) ops hno
+  · exact inv3_run (inv3_initPool mn mx ch ⟨h1, h2⟩) ops hno
+
+/-- Before `quit()`, a backlog exists only while `limitedWorkerCreator` would refuse to create a worker
+    (`busy + idle ≥ currentLimit()`), or while the `grow(len(_pending))` kick of `adjustPoolsize` is still queued. -/
+theorem backlog_only_while_creator_refuses {s : St} (h : ReachableViaPool s) (hq : s.quit = false)
+    (hp : s.pending ≠ []) :
+    ((s.busy + s.idle.length : Nat) : Int) ≥ s.limit ∨
+    ∃ n, CItem.grow n ∈ s.coordQ ∧ s.pending.length ≤ n := by
+  rcases (reachableViaPool_inv3 h).back hp with a | a | a
+  · rw [hq] at a; cases a
+  · exact Or.inl a
+  · exact Or.inr a
+
+/-- Quiescence, in full: if no queue has work and `quit()` has not been called, then either the backlog is empty,
+    or there is no live worker AND the creator refuses (the limit is ≤ 0: no worker can be created at all). -/
+theorem quiescent_backlog_means_no_worker_possible {s : St} (h : ReachableViaPool s) (he : s.enabled = [])
+    (hq : s.quit = false) :
+    s.pending = [] ∨
+    (s.limit ≤ 0 ∧ s.idle = [] ∧ s.busy = 0 ∧
+      ∀ (w : Nat) (wk : Worker), s.workers[w]? = some wk → wk.quit = true) := by
+  rcases quiescent_backlog_means_no_live_worker h.reachable he with hp | ⟨hi, hb, hall⟩
+  · exact Or.inl hp
+  · cases hp : s.pending with
+    | nil => exact Or.inl rfl
+    | cons t rest =>
+      right
+      refine ⟨?_, hi, hb, hall⟩
+      obtain ⟨hcq, _⟩ := (enabled_nil_iff s).mp he
+      rcases backlog_only_while_creator_refuses h hq (by rw [hp]; simp) with a | ⟨n, a, _⟩
+      · rw [hb, hi] at a; simpa using a
+      · rw [hcq] at a; simp at a
+
+/-- Every task submitted before quit runs exactly once unless no worker can be created: at a quiescent state
+    before `quit()` whose limit admits at least one worker, every task has been called exactly as often as
+    `Team.do` accepted it (so exactly once for distinct tasks). -/
+theorem every_task_runs_exactly_once_unless_no_worker_possible {s : St} (h : ReachableViaPool s)
+    (he : s.enabled = []) (hq : s.quit = false) (hl : 0 < s.limit) (x : Nat) :
+    runs x s = accepts x s := by
+  have := quiescent_ran_or_backlogged h.reachable he x
+  rcases quiescent_backlog_means_no_worker_possible h he hq with hp | ⟨hle, _⟩
+  · rw [hp] at this; simpa using this
+  · omega
+
 /-! ### Non-vacuity and witnesses -/
 
 /-- a history that creates two workers, runs three tasks (one raising), shrinks and quits -/
@@ -127,6 +301,47 @@ example : demo.workers.length = 2 ∧ demo.coordQuit = true ∧ demo.crashed = n
     Ev.create 1 1 2 ∈ demo.log := by decide
 example : (step demo (.doTask 9 false)).log = demo.log ++ [.refused 0] :=
   (submission_after_quit_refused demo 9 false (by decide) (by decide)).2.2
+
+
+/-- `demo` is quiescent after quit: three tasks accepted once each, each called exactly once, nothing in flight,
+    coordinator and both workers quit (the hypotheses of the quiescence/quit theorems are satisfiable). -/
+example : demo.enabled = [] ∧ demo.quit = true ∧ accepts 0 demo = 1 ∧ runs 0 demo = 1 ∧ accepts 1 demo = 1 ∧
+    runs 1 demo = 1 ∧ runs 2 demo = 1 ∧ inflight 2 demo = 0 ∧ demo.coordQuit = true ∧
+    demo.workers.map (·.quit) = [true, true] := by decide
+example : demo.coordQuit = true := (quit_stops_coordinator_and_every_worker
+  ⟨init 2 [1], _, Or.inl ⟨2, [1], rfl⟩, rfl⟩ (by decide) (by decide)).1
+
+theorem noRawLimit_of_all (ops : List Op)
+    (h : ops.all (fun o => match o with | .limit _ => false | _ => true) = true) :
+    ∀ o ∈ ops, ∀ l, o ≠ Op.limit l := by
+  intro o ho l hx
+  subst hx
+  have := List.all_eq_true.mp h _ ho
+  simp at this
+
+/-- conservation in the middle of a history: task 0 is in a worker queue, task 1 in the backlog (limit 1), task 2
+    still a coordinator item -/
+def mid : St := run (init 1 []) [.doTask 0 false, .doTask 1 false, .stepC, .stepC, .doTask 2 true]
+example : ReachableViaPool mid := ⟨init 1 [], _, Or.inl ⟨1, [], rfl⟩, noRawLimit_of_all _ (by decide), rfl⟩
+example : inflight 0 mid = 1 ∧ inflight 1 mid = 1 ∧ inflight 2 mid = 1 ∧ runs 0 mid = 0 ∧ mid.pending = [(1, 0)] ∧
+    mid.busy = 1 ∧ mid.limit = 1 ∧ mid.quit = false := by decide
+
+/-- a quiescent pre-quit state with a backlog: the limit is 0 (a `ThreadPool` that was never started) -/
+def starved : St := run (initPool 0 3 []) [.pCall 7 false, .stepC]
+example : ReachableViaPool starved :=
+  ⟨initPool 0 3 [], _, Or.inr ⟨0, 3, [], by decide, by decide, rfl⟩, noRawLimit_of_all _ (by decide), rfl⟩
+example : starved.enabled = [] ∧ starved.quit = false ∧ starved.pending = [(7, 2)] ∧ starved.limit = 0 := by decide
+/-- … and starting the pool serves it: quiescent, limit 3 > 0, the call ran exactly once. -/
+def served : St := run starved [.pStart, .any 0, .any 0, .any 0]
+example : served.enabled = [] ∧ served.quit = false ∧ 0 < served.limit ∧ runs 7 served = 1 ∧ accepts 7 served = 1 := by
+  decide
+
+/-- After `quit()` the pre-quit clause really needs `quit = false`: a `start()` after `stop()` raises the limit but its
+    `grow` is refused (`AlreadyQuit`), so a call queued before the pool ever started is never served. -/
+theorem start_after_stop_leaves_backlog :
+    let s := run (initPool 0 3 []) [.pCall 7 false, .stepC, .pStop, .pStart, .stepC]
+    s.enabled = [] ∧ s.quit = true ∧ s.pending = [(7, 2)] ∧ s.limit = 3 ∧ s.workers = [] ∧ s.coordQuit = true := by
+  decide
 
 /-- The repaired `adjustPoolsize`: raising the maximum of a started `ThreadPool(0, 0)` now runs the backlog. -/
 example : Ev.run 0 0 ∈ (run (initPool 0 0 []) [.pStart, .pCall 0 false, .stepC, .pAdjust none (some 1),
